@@ -974,7 +974,31 @@ func (s *BaseNodeService) processMessage(message storage.Message) (*types.Operat
 	return operation, nil
 }
 
+// maxBroadcastSize bounds the payloads and signatures put into one signature_reconstructed message:
+// the message repeats every payload of the batch, and a board line is finite (1 MiB on the file
+// board, base64 included), while the proposal and the answers of the same batch do fit.
+const maxBroadcastSize = 256 * 1024
+
 func (s *BaseNodeService) broadcastReconstructedSignatures(message storage.Message, sigs []fsmtypes.ReconstructedSignature) error {
+	var (
+		chunk []fsmtypes.ReconstructedSignature
+		size  int
+	)
+	for _, sig := range sigs {
+		sigSize := len(sig.SrcPayload) + len(sig.Signature) + len(sig.File) + len(sig.MessageID) + len(sig.BatchID) + 256
+		if len(chunk) > 0 && size+sigSize > maxBroadcastSize {
+			if err := s.broadcastReconstructedSignaturesChunk(message, chunk); err != nil {
+				return err
+			}
+			chunk, size = nil, 0
+		}
+		chunk = append(chunk, sig)
+		size += sigSize
+	}
+	return s.broadcastReconstructedSignaturesChunk(message, chunk)
+}
+
+func (s *BaseNodeService) broadcastReconstructedSignaturesChunk(message storage.Message, sigs []fsmtypes.ReconstructedSignature) error {
 	data, err := json.Marshal(sigs)
 	if err != nil {
 		return fmt.Errorf("failed to marshal reconstructed signatures: %w", err)
